@@ -205,6 +205,14 @@ class Model:
         # ids whose response reached the transport in this process: "two requests never receive the same id", whatever
         # happened to the registry in between (kept apart from the registry on purpose)
         self.handed_out: set[int] = set()
+        # C12 allows ANY message to be held for a sleeping destination and handed over at its next wake; C07 only says
+        # that set commands are.  Lines of other commands whose send returned normally without a write are kept here
+        # and their release at that node's wake is not taken for a reaction or a presentation request.
+        self.held_other: dict[int, list[str]] = {}
+        # C04 quantifies over histories of RECEIVED messages; whether a set command that the controller itself has
+        # written also shows up as the child's stored value ("optimistic state") is not ruled on.  Values of set
+        # commands written successfully since the last registry comparison: adopted if the registry shows them.
+        self.optimistic: dict[tuple[int, int, int], str] = {}
         self.relaxations: Counter = Counter()
         self.local_epoch = None  # callable -> expected local-epoch int at "now"
         if version is not None:
@@ -268,8 +276,13 @@ class Model:
                 if obs.kind == "ok":
                     if ok_writes != [line]:
                         d.append(("send", "immediate:wrong-write", f"want {line!r} got {obs.writes!r}"))
+                    else:
+                        self.optimistic[(n, c, t)] = p
                 elif not obs.is_transport_error:
                     d.append(("send", "immediate:raised", f"{obs.cls}"))
+        elif obs.kind == "ok" and not obs.writes and sleeping and buffer:
+            self.held_other.setdefault(n, []).append(line)
+            self.relaxations["held-non-set-command"] += 1
         return d
 
     # -- one received line ---------------------------------------------------
@@ -353,6 +366,14 @@ class Model:
                     exp_writes.append((n, 255, 3, 13, ""))
             else:
                 val = self.nodes[n]["children"][c]["values"].get(t)
+                opt = self.optimistic.get((n, c, t))
+                if opt is not None and opt != val and any(
+                        (ff := _fields_of_write(w_)) and (ff[0], ff[1], ff[2], ff[4], ff[5]) == (n, c, 1, t, opt)
+                        for w_, _ok in obs.writes):
+                    # the controller answers with the value it has written itself a moment ago (optimistic state,
+                    # see self.optimistic): adopt it as the stored value
+                    self.nodes[n]["children"][c]["values"][t] = val = opt
+                    self.relaxations["optimistic-state"] += 1
                 if val is not None:
                     exp_writes.append((n, c, 1, t, val))
         elif cmd == 3:
@@ -456,6 +477,19 @@ class Model:
                 d.append(("writes.format", "not-one-line", repr(w)))
         decoded = [(f, ok, w) for f, ok, w in decoded if f is not None]
 
+        other_release_failed = False
+        if release_for is not None and self.held_other.get(release_for):
+            held = self.held_other[release_for]
+            kept = []
+            for f, ok, w in decoded:
+                if w in held:
+                    if ok:
+                        held.remove(w)
+                    else:
+                        other_release_failed = True
+                else:
+                    kept.append((f, ok, w))
+            decoded = kept
         query = [x for x in decoded if x[0][:3] == (0, 255, 3) and x[0][4] == 2 and x[0][5] == ""]
         pres = [x for x in decoded if x[0][1] == 255 and x[0][2] == 3 and x[0][4] == 19]
         rest = [x for x in decoded if x not in query and x not in pres]
@@ -477,6 +511,7 @@ class Model:
             okd = [x for x in release if x[1]]
             for f, ok, w in okd:
                 key = (f[0], f[1], f[4])
+                self.optimistic[key] = f[5]
                 if self.parked.get(key) == w:
                     del self.parked[key]
                     self.stale_ok.discard(key)
@@ -522,7 +557,7 @@ class Model:
             kind = "missing" if len(got) < len(want) else "unexpected" if len(got) > len(want) else "wrong"
             d.append(("writes.reaction", f"cmd{cmd}-type{t if cmd == 3 else 'x'}:{kind}-reaction",
                       f"want {want} got {got}"))
-        if any(not ok for f, ok, w in rest):
+        if any(not ok for f, ok, w in rest) or other_release_failed:
             exp_err = ("transport", {})
 
         # ---------------- presentation request (C10) ----------------
@@ -714,6 +749,16 @@ class Model:
     def _check_registry(self, obs, d, where):
         if obs.nodes is None:
             return
+        for (n, c, t), p in self.optimistic.items():
+            node = self.nodes.get(n)
+            try:
+                got = obs.nodes[n]["children"][c]["values"].get(t)
+            except (KeyError, TypeError, AttributeError):
+                got = None
+            if node is not None and c in node["children"] and got == p and node["children"][c]["values"].get(t) != p:
+                node["children"][c]["values"][t] = p
+                self.relaxations["optimistic-state"] += 1
+        self.optimistic.clear()
         want = self.snapshot()
         if obs.nodes != want:
             d.append(("registry", f"{where}:{_diff_site(want, obs.nodes)}", _diff_detail(want, obs.nodes)))
